@@ -7,7 +7,6 @@ import (
 	"fmt"
 	"net/http"
 	"net/url"
-	"reflect"
 	"sort"
 	"strings"
 
@@ -217,9 +216,10 @@ func Call(w http.ResponseWriter, r *http.Request, route types.Route, h *H) {
 	if route != nil {
 		o.Router = route.RouterName()
 		n := route.Node()
-		if n == nil || isNilNode(n) {
+		if n == nil {
 			o.NodeNil = true
 		} else {
+			// "n != nil" is all a user can check: a typed nil pointer inside the interface faults right here.
 			o.Pattern = n.Pattern()
 			o.MethodsLive = n.Methods() // the very slice mux handed out
 			o.Methods = append([]string(nil), o.MethodsLive...)
@@ -257,7 +257,7 @@ func Call(w http.ResponseWriter, r *http.Request, route types.Route, h *H) {
 	}
 	o.Kind = c.Kind
 	o.CoreID = c.ID
-	if c.Node != nil && !isNilNode(c.Node) {
+	if c.Node != nil {
 		o.HNodePat = c.Node.Pattern()
 		o.HAllow = c.Node.AllowHeader()
 	}
@@ -270,17 +270,12 @@ func Call(w http.ResponseWriter, r *http.Request, route types.Route, h *H) {
 		o.ParamsExit = map[string]string{}
 		route.Params().Range(func(k, v string) { o.ParamsExit[k] = v })
 		o.RouterExit = route.RouterName()
-		if n := route.Node(); n != nil && !isNilNode(n) {
+		if n := route.Node(); n != nil {
 			o.PatternExit = n.Pattern()
 		}
 	}
 }
 
-func isNilNode(n types.Node) bool {
-	// a typed nil pointer inside the interface
-	v := reflect.ValueOf(n)
-	return v.Kind() == reflect.Ptr && v.IsNil()
-}
 
 func run(w http.ResponseWriter, r *http.Request, o *Obs, h *H) {
 	if h.Inner != nil {
